@@ -418,7 +418,7 @@ Fixpoint strip_dot0 (s : text) : text :=
 Fixpoint split_at (ch : Z) (s : text) : text * option text :=
   match s with
   | [] => ([], None)
-  | c :: r => if c =? ch then ([], Some r) else (c :: fst (split_at ch r), snd (split_at ch r))
+  | c :: r => if c =? ch then ([], Some r) else match split_at ch r with (a, b) => (c :: a, b) end
   end.
 Definition rjust3 (t : text) : text := zeros (3 - length t) ++ t.
 Definition format_float (d : dec) : text :=
